@@ -337,8 +337,7 @@ def map_case(res, case):
     try:
         b = build(nl, STYLES[case['style']])
         c = b.circuit
-        has_port_forks = any(x.kind == '__fork__' and len(x.ins) == 0 for x in c.io_nodes)
-        strip = case['strip'] and not has_port_forks
+        strip = case['strip']
         so = SimOps(c, c_caps=case['caps'], c_caps_min=case['cmin'], c_reuse=case['reuse'], strip_forks=strip)
         vs = check_map(so, c, strip, logic_layout=(case['cmin'] == 1))
         key0 = f'C08/map/{common.h64(case["nl"]):016x}/s{case["style"]}{"r" if case["reuse"] else ""}{"f" if strip else ""}/{case["capname"]}'
@@ -368,7 +367,7 @@ def run_maps(res, task):
         g = F.t3_shard(fam[1], fam[2], fam[3], extra_tap=True)
     for idx, nl in enumerate(g):
         if tier == 'quick' and fam in ('t1', 't2') and idx % 4 != seed % 4: continue
-        si = idx % len(STYLES)
+        si = (idx // 4 if (tier == 'quick' and fam in ('t1', 't2')) else idx) % len(STYLES)
         b = build(nl, STYLES[si])
         nlines = len(b.circuit.lines)
         for capname, caps in cap_vectors(nlines, tier, idx):
